@@ -1,7 +1,7 @@
-CONSTANTS MaxDepth = 5 MaxHandles = 5 Emit = FALSE
+CONSTANTS MaxDepth = 5 MaxHandles = 5 Emit = FALSE Msgs = {"m1", "m2"}
 SPECIFICATION MSpec
 VIEW MView
 CONSTRAINT Bound
-INVARIANTS TypeOK DroppedIsZero HonestVerifies SigFunctional SerInjective NoLongContext RngDiscipline PkInterchangeable
+INVARIANTS TypeOK DroppedIsZero HonestVerifies SigFunctional SerInjective FmtInjective CrossInterface NoLongContext RngDiscipline PkInterchangeable
 PROPERTIES ErrorCreatesNothing VerifyMeansIssued
 CHECK_DEADLOCK FALSE
